@@ -188,6 +188,9 @@ func resolveTypes(rootPkg *packages.Package, endpoints []Endpoint) {
 			}
 			required = append(required, param.type_)
 		}
+		if json := endpoint.Contract.InputForm.JSON; json.Name != "" && json.type_ != nil {
+			required = append(required, json.type_)
+		}
 	}
 
 	// performs the analysis
